@@ -188,8 +188,9 @@ Print Assumptions C01_path.
 (* the hypothesis caps_int64 inside [path_hyps] follows from the node records being Go
    ints with well-formed maps (builder B's get_cpu_plans_content): [nodes_ok] *)
 Theorem C01_path_hyps_discharged :
-  forall sortf, (forall l, exists l', sortf l = Types.Ok l' /\ Permutation l' l) ->
-  forall base maxshare raw req orders nodes caps morder status need limit,
+  forall (sortf : list Schedule.keyed -> Types.outcome (list Schedule.keyed)),
+  (forall l, exists l', sortf l = Types.Ok l' /\ Permutation l' l) ->
+  forall base maxshare (raw req : Types.wreq) orders nodes caps morder status need limit,
   Types.wreq_validate raw = inr req -> NoDup (map fst nodes) -> 0 < base -> nodes_ok orders nodes ->
   plugin_caps sortf base maxshare req orders nodes = Types.Ok caps ->
   (forall k, 0 <= mget status k) ->
